@@ -29,6 +29,16 @@ static long jb[64];
 static int M(int i) { if (nb >= 250) longjmp(jb, 1); buf[nb++] = i; return 7; }
 static int T(int i) { M(i); return 1; }
 static int F(int i) { M(i); return 0; }
+/* truth values of other scalar types: true = nonzero (0x100000000, 0.5, non-null, NaN), false = 0 / -0.0 / null */
+static double vzero;
+static int T_i(int i) { M(i); return 1; }                           static int F_i(int i) { M(i); return 0; }
+static long T_l(int i) { M(i); return 0x100000000L; }               static long F_l(int i) { M(i); return 0; }
+static void *T_p(int i) { M(i); return buf; }                       static void *F_p(int i) { M(i); return 0; }
+static float T_f(int i) { M(i); return 0.5f; }                      static float F_f(int i) { M(i); return -0.0f; }
+static double T_d(int i) { M(i); return 0.5; }                      static double F_d(int i) { M(i); return -0.0; }
+static double T_dn(int i) { M(i); return vzero / vzero; }           static double F_dn(int i) { M(i); return 0.0; }
+static long double T_x(int i) { M(i); return 0.5L; }                static long double F_x(int i) { M(i); return -0.0L; }
+static long double T_xn(int i) { M(i); return vzero / vzero; }      static long double F_xn(int i) { M(i); return 0.0L; }
 static void show(int id) { printf("C %d", id); for (int i = 0; i < nb; i++) printf(" %d", buf[i]); printf("\n"); }
 /* a case that spins without marks (only a broken compiler produces one) is cut off after 1 s of its
    own CPU time (ITIMER_VIRTUAL: machine load cannot trigger it) */
@@ -56,17 +66,49 @@ def open_if(P, i):
     return False
 
 
-def loop_cond(n, i, incr):
+# operand types of the truth-value family (Truth.tla): int, long, pointer, float, double, long double, NaNs
+TYS = [["i", "l", "p", "f", "d", "x", "dn", "xn"], ["i", "d", "l", "x", "p", "f", "xn", "dn"]]
+TRUEC = dict(i="1", l="0x100000000L", p="(void *)buf", f="0.5f", d="0.5", dn="(vzero / vzero)", x="0.5L", xn="(long double)(vzero / vzero)")
+FALSEC = dict(i="0", l="0L", p="(void *)0", f="-0.0f", d="-0.0", dn="0.0", x="-0.0L", xn="0.0L")
+
+
+def value_leaves(P, i):
+    """the T/F leaves whose type becomes the type of expression i"""
+    n = P[i - 1]
+    k = n["k"]
+    if k in ("T", "F"):
+        return {i}
+    if k in ("Comma", "SE"):
+        return value_leaves(P, n["kids"][1])
+    if k == "Cond":
+        return value_leaves(P, n["kids"][1]) | value_leaves(P, n["kids"][2])
+    return set()
+
+
+def type_map(P, rot):
+    """node index -> type tag; pointers are replaced by long where ?: would have to merge them with arithmetic types"""
+    ty = TYS[rot // 8]
+    tm = {i + 1: ty[(i + 1 + rot) % 8] for i in range(len(P))}
+    for i, n in enumerate(P):
+        if n["k"] == "Cond":
+            for j in value_leaves(P, n["kids"][1]) | value_leaves(P, n["kids"][2]):
+                if tm[j] == "p":
+                    tm[j] = "l"
+    return tm
+
+
+def loop_cond(n, i, incr, tm=None):
     a = n["a"]
-    c = "0" if a == 0 else "1" if a == 9 else ("c%d++ < %d" % (i, a) if incr else "c%d < %d" % (i, a))
+    t = tm[i] if tm else "i"
+    c = FALSEC[t] if a == 0 else TRUEC[t] if a == 9 else ("c%d++ < %d" % (i, a) if incr else "c%d < %d" % (i, a))
     return "(M(%d), %s)" % (100 + i, c) if n["b"] & 1 else c
 
 
-def rs(P, i, sw):
+def rs(P, i, sw, tm=None):
     """render statement/expression node i (1-based) of program P; sw = (ctype, value map) for Switch/Case"""
     n = P[i - 1]
     k, kids = n["k"], n["kids"]
-    R = lambda j: rs(P, kids[j], sw)
+    R = lambda j: rs(P, kids[j], sw, tm)
     cv = lambda v: sw[1][v] if sw else str(v)
     if k == "Mark":
         return "M(%d);" % i
@@ -80,16 +122,16 @@ def rs(P, i, sw):
             t = "{ " + t + " }"
         return "if (%s) %s else %s" % (R(0), t, R(2))
     if k == "While":
-        return "{ c%d = 0; while (%s) %s }" % (i, loop_cond(n, i, True), R(0))
+        return "{ c%d = 0; while (%s) %s }" % (i, loop_cond(n, i, True, tm), R(0))
     if k == "Do":
-        return "{ c%d = 0; do %s while (%s); }" % (i, R(0), loop_cond(n, i, True))
+        return "{ c%d = 0; do %s while (%s); }" % (i, R(0), loop_cond(n, i, True, tm))
     if k == "For":
-        cond = "" if (n["a"] == 9 and not n["b"] & 1) else loop_cond(n, i, False)
+        cond = "" if (n["a"] == 9 and not n["b"] & 1) else loop_cond(n, i, False, tm)
         inc = "(M(%d), c%d++)" % (200 + i, i) if n["b"] & 2 else "c%d++" % i
         return "for (c%d = 0; %s; %s) %s" % (i, cond, inc, R(0))
     if k == "Switch":
         if sw:
-            return "{ %s v%d = %s; switch (v%d) %s }" % (sw[0], i, cv(n["a"]), i, R(0))
+            return "{ %s v%d = %s; switch (v%d) %s }" % (sw[0], i, (sw[2] if len(sw) > 2 else sw[1])[n["a"]], i, R(0))
         return "switch (%d) %s" % (n["a"], R(0))
     if k == "Case":
         return "case %s: %s" % (cv(n["a"]), R(0))
@@ -109,10 +151,8 @@ def rs(P, i, sw):
         return "L%d: %s" % (n["a"], R(0))
     if k == "Expr":
         return R(0) + ";"
-    if k == "T":
-        return "T(%d)" % i
-    if k == "F":
-        return "F(%d)" % i
+    if k in ("T", "F"):
+        return "%s%s(%d)" % (k, "_" + tm[i] if tm else "", i)
     if k == "Not":
         return "!" + R(0)
     if k == "And":
@@ -141,7 +181,7 @@ def render_flow(idx, c):
         out.append(" int " + ", ".join("c%d = 0" % i for i in cs) + ";")
     if stars:
         out.append(" void *tab[] = {" + ", ".join("&&L%d" % j if j in labs else "(void *)0" for j in range(1, max(stars) + 1)) + "};")
-    out.append(" " + rs(P, 1, sw))
+    out.append(" " + rs(P, 1, sw, type_map(P, c["rot"]) if c.get("rot") is not None else None))
     out.append("}")
     return "\n".join(out) + "\n"
 
@@ -281,6 +321,24 @@ EMBED = [
 ]
 
 
+# controlling types narrower than int with labels that are NOT representable in the type (but are in int):
+# (type, labels, controlling values; None = no value of the type equals that label).  6.8.4.2p5 converts the
+# labels to the PROMOTED type, so such a label never matches; every unrepresentable label here wraps to
+# another value of the list, which is then used as a controlling value.
+EMBED_NARROW = [
+    ("char", ["-56", "5", "6", "200"], ["-56", "5", "6", None]),
+    ("char", ["-129", "-128", "127", "128"], [None, "-128", "127", None]),
+    ("signed char", ["-56", "5", "6", "200"], ["-56", "5", "6", None]),
+    ("unsigned char", ["-1", "0", "255", "256"], [None, "0", "255", None]),
+    ("unsigned char", ["-254", "2", "3", "258"], [None, "2", "3", None]),
+    ("short", ["-1", "7", "8", "0xFFFF"], ["-1", "7", "8", None]),
+    ("short", ["-32769", "-32768", "32767", "32768"], [None, "-32768", "32767", None]),
+    ("unsigned short", ["-1", "0", "65535", "65536"], [None, "0", "65535", None]),
+    ("_Bool", ["-1", "0", "1", "2"], [None, "0", "1", None]),
+    ("_Bool", ["0", "1", "2", "3"], ["0", "1", None, None]),
+]
+
+
 def c_int(txt):
     t = txt.strip("()").rstrip("uUlL")
     if t.endswith("-1") and t.startswith("-0x7fffffffffffffffL"):
@@ -291,7 +349,8 @@ def c_int(txt):
 
 
 def typed_switch_cases(progs):
-    out = []
+    """-> (wide family, narrow family)"""
+    out, narrow = [], []
     for c in progs:
         ks = [n["k"] for n in c["p"]]
         if "Switch" not in ks:
@@ -309,7 +368,31 @@ def typed_switch_cases(progs):
             big32 = ty == "unsigned" and "CaseR" in ks and any(c_int(vm[v]) >= (1 << 31) for v in used)
             sig = ("case-label-beyond-int:" if wide or big32 else "") + ty.replace(" ", "-")
             out.append(dict(p=c["p"], tr=c["tr"], sw=[ty, vm], swsig=sig, emb=ei))
+        labels = set()
+        for n in c["p"]:
+            if n["k"] == "Case":
+                labels.add(n["a"])
+            if n["k"] == "CaseR":
+                labels |= {n["a"], n["b"]}
+        for ei, (ty, vm, cm) in enumerate(EMBED_NARROW):
+            if any(cm[n["a"]] is None for n in c["p"] if n["k"] == "Switch"):
+                continue            # the controlling value must be a value of the narrow type
+            if not any(cm[v] is None for v in labels):
+                continue            # no label outside the type's range: covered by the other family
+            narrow.append(dict(p=c["p"], tr=c["tr"], sw=[ty, vm, cm], swsig="label-outside-narrow-type:" + ty.replace(" ", "-"), emb=100 + ei))
+    return out, narrow
+
+
+def truth_typed_cases(progs):
+    """programs with truth-valued leaves or constant loop conditions x 16 assignments of operand types"""
+    out = []
+    for c in progs:
+        if not any(n["k"] in ("T", "F") or (n["k"] in LOOPS and n["a"] in (0, 9)) for n in c["p"]):
+            continue
+        for rot in range(16):
+            out.append(dict(p=c["p"], tr=c["tr"], rot=rot))
     return out
+
 
 # ------------------------------------------------------------------ scope histories -> C
 SPRELUDE = r"""
@@ -406,35 +489,18 @@ def scope_sig(c, exp, got):
     return "scope:" + "+".join(ks)
 
 
-def run_scope(ctx, tree):
+def replay_scope(ctx, tree, got3, got4):
+    """got3: every history with <= 3 opened constructs; got4 (thorough): those with 4"""
     q = ctx.quick
-    out = os.path.join(ctx.scratch, "scope.ndjson")
-    hs = []
-    # the replayed domain: every history with <= 3 opened constructs; thorough additionally model
-    # checks 4 opened constructs and replays a seed-selected tenth of those histories
-    for mo, stride in ((3, 1),) if q else ((3, 1), (4, 10)):
-        out = os.path.join(ctx.scratch, "scope%d.ndjson" % mo)
-        cfg = ctx.cfg("flow", "Scope_mc.cfg", MaxDecl=3, MaxOpen=mo, Emit=True)
-        g = ctx.tlc("flow", "Scope", cfg, env=dict(OUT=out), workers=4, heap="3g", timeout=3000)
-        if not g.ok:
-            p = ctx.replay_dir("tlc-Scope")
-            open(p + "/counterexample.txt", "w").write(g.trace_text())
-            json.dump(dict(kind="tlc", area="flow", module="Scope"), open(p + "/case.json", "w"))
-            ctx.report("tlc:Scope:%s" % g.violated, "chibicc's scope chain (Level I) binds differently from the innermost-visible rule (Level A)", p)
-        got = sorted(vt.read_ndjson(out), key=lambda c: json.dumps(c, sort_keys=True))
-        if mo == 4:
-            got = [h for h in got if sum(1 for ev in h["h"] if ev["e"] == "open") == 4]
-        hs += vt.subsample(got, ctx.seed, stride)
-    for v in ("for-noleave", "typedef-own-map"):
-        r = ctx.tlc("flow", "Scope", ctx.cfg("flow", "Scope_mc.cfg", MaxDecl=2, Variant='"%s"' % v), workers=2, heap="1g", count=False)
-        if r.ok:
-            raise Infra("sensitivity control failed: TLC accepts the wrong scope chain '%s'" % v)
+    key = lambda c: json.dumps(c, sort_keys=True)
+    hs = sorted(got3, key=key)
+    if got4:
+        g4 = [h for h in sorted(got4, key=key) if sum(1 for ev in h["h"] if ev["e"] == "open") == 4]
+        hs += vt.subsample(g4, ctx.seed, 10)
     if len(hs) < 500:
         raise Infra("Scope generator wrote only %d histories" % len(hs))
-    # each history also gets the second function g
-    for h in hs:
+    for h in hs:            # each history also gets the second function g
         h["h"].append(dict(e="g", k="lab", p=False, id=99, exp=None))
-    ctx.phase("Scope model")
     sel = vt.subsample(hs, ctx.seed, 8 if q else 1)
     mid = sel[len(sel) // 2]
     ctx.sample(dict(kind="scope", c_source=render_scope(0, mid), expected=expect_scope(0, mid)))
@@ -529,6 +595,8 @@ def flow_sig(c, exp, got):
     ks = set(n["k"] for n in c["p"])
     if c.get("sw"):
         return "switch:" + c["swsig"]
+    if c.get("rot") is not None:
+        return "truth:operand-types"
     for tag, grp in (("goto", {"Goto", "GotoStar", "Label"}), ("switch", {"Switch"}), ("stmt-expr", {"SE"}),
                      ("loop", set(LOOPS)), ("expr", {"And", "Or", "Cond", "Comma", "Not"})):
         if ks & grp:
@@ -536,55 +604,75 @@ def flow_sig(c, exp, got):
     return "flow:basic"
 
 
-PAR = int(os.environ.get("VERIF_C03_PAR", "3"))      # concurrent TLC runs (2 workers each)
-
-
-def run_flow(ctx, tree):
-    q = ctx.quick
-    jobs = []
-    for name, prof in PROFILES.items():
-        jobs.append((name, flow_cfg(ctx, name, prof[6] if q else prof[7]), os.path.join(ctx.scratch, "flow-%s.ndjson" % name)))
-
-    def one(j):
-        name, cfg, out = j
-        return name, out, ctx.tlc("flow", "CFlow", cfg, env=dict(OUT=out), workers=2, heap="3g", timeout=3000)
-    progs = {}
-    for name, out, g in vt.pmap(one, jobs, workers=PAR):
-        if not g.ok:
-            p = ctx.replay_dir("tlc-CFlow-" + name)
-            open(p + "/counterexample.txt", "w").write(g.trace_text())
-            json.dump(dict(kind="tlc", area="flow", module="CFlow", profile=name), open(p + "/case.json", "w"))
-            ctx.report("tlc:CFlow:%s:%s" % (name, g.violated), "chibicc's lowering (Level I) differs from the abstract machine (Level A)", p)
-        # TLC workers append in no fixed order: sort, so that a seed selects the same programs in every run
-        progs[name] = sorted(vt.read_ndjson(out), key=lambda c: json.dumps(c, sort_keys=True))
-        if len(progs[name]) < 50:
-            raise Infra("CFlow profile %s wrote only %d programs" % (name, len(progs[name])))
-    ctx.phase("CFlow profiles")
-    return progs
-
+PAR = int(os.environ.get("VERIF_C03_PAR", "4"))      # concurrent TLC runs (2 workers each)
 
 CONTROLS = [("loopmini", 5, "norestore-cont"), ("loopmini", 5, "norestore-brk"), ("swmini", 6, "norestore-sw"),
             ("expr", 4, "and-or-mixup"), ("swmini", 6, "default-first"), ("swmini", 4, "range-open")]
 
 
-def run_controls(ctx):
-    def one(t):
-        name, n, v, cfg = t
-        r = ctx.tlc("flow", "CFlow", cfg, workers=1, heap="1g", count=False, timeout=1500)
-        return v, r.ok
-    cs = [(name, n, v, flow_cfg(ctx, name, n, variant=v, emit=False)) for name, n, v in CONTROLS]
-    for v, ok in vt.pmap(one, cs, workers=PAR + 1):
-        if ok:
-            raise Infra("sensitivity control failed: TLC accepts the wrong lowering '%s'" % v)
-    ctx.phase("CFlow controls")
+def tlc_jobs(ctx):
+    """every TLC run of the check as one job list (run PAR at a time, biggest first):
+    (key, module, cfg, env, workers, heap, count, expect)   expect: "ok" | "reject" """
+    q = ctx.quick
+    jobs = []
+    for mo in (3,) if q else (4, 3):
+        out = os.path.join(ctx.scratch, "scope%d.ndjson" % mo)
+        jobs.append((("scope", mo, out), "Scope", ctx.cfg("flow", "Scope_mc.cfg", MaxDecl=3, MaxOpen=mo, Emit=True), dict(OUT=out), 2 if q else 4, "3g", True, "ok"))
+    for name in ("all", "goto", "switch", "loops", "swloop", "expr", "sejump"):
+        prof = PROFILES[name]
+        out = os.path.join(ctx.scratch, "flow-%s.ndjson" % name)
+        jobs.append((("prof", name, out), "CFlow", flow_cfg(ctx, name, prof[6] if q else prof[7]), dict(OUT=out), 2, "3g", True, "ok"))
+    for name, n, v in CONTROLS:
+        jobs.append((("ctl", "CFlow:" + v, None), "CFlow", flow_cfg(ctx, name, n, variant=v, emit=False), None, 1, "1g", False, "reject"))
+    for v in ("for-noleave", "typedef-own-map"):
+        jobs.append((("ctl", "Scope:" + v, None), "Scope", ctx.cfg("flow", "Scope_mc.cfg", MaxDecl=2, Variant='"%s"' % v), None, 1, "1g", False, "reject"))
+    jobs.append((("mc", "SwitchCmp", None), "SwitchCmp", ctx.cfg("flow", "SwitchCmp.cfg"), None, 1, "1g", True, "ok"))
+    jobs.append((("ctl", "SwitchCmp:labels-in-int", None), "SwitchCmp", ctx.cfg("flow", "SwitchCmp.cfg", FIXED=False), None, 1, "1g", False, "reject"))
+    jobs.append((("ctl", "SwitchCmp:narrow-wrap", None), "SwitchCmp", ctx.cfg("flow", "SwitchCmp.cfg", NarrowWrap=True), None, 1, "1g", False, "reject"))
+    jobs.append((("mc", "Truth", None), "Truth", ctx.cfg("flow", "Truth.cfg"), None, 1, "1g", True, "ok"))
+    for v in ("rhs-in-lhs-class", "nan-false"):
+        jobs.append((("ctl", "Truth:" + v, None), "Truth", ctx.cfg("flow", "Truth.cfg", Variant='"%s"' % v), None, 1, "1g", False, "reject"))
+    return jobs
+
+
+def run_models(ctx):
+    jobs = tlc_jobs(ctx)
+
+    def one(j):
+        key, module, cfg, env, workers, heap, count, expect = j
+        return j, ctx.tlc("flow", module, cfg, env=env, workers=workers, heap=heap, count=count, timeout=3000)
+    progs, scope = {}, {}
+    what = dict(CFlow="chibicc's lowering (Level I) differs from the abstract machine (Level A)",
+                Scope="chibicc's scope chain (Level I) binds differently from the innermost-visible rule (Level A)",
+                SwitchCmp="the case compare (Level I) differs from 6.8.4.2 (Level A)",
+                Truth="cmp_zero (Level I) differs from `compares unequal to 0` (Level A)")
+    for (key, module, cfg, env, workers, heap, count, expect), g in vt.pmap(one, jobs, workers=PAR):
+        kind, name, out = key
+        if expect == "reject":
+            if g.ok:
+                raise Infra("sensitivity control failed: TLC accepts the wrong variant '%s'" % name)
+            continue
+        if not g.ok:
+            p = ctx.replay_dir("tlc-%s-%s" % (module, name))
+            open(p + "/counterexample.txt", "w").write(g.trace_text())
+            json.dump(dict(kind="tlc", area="flow", module=module, profile=name), open(p + "/case.json", "w"))
+            ctx.report("tlc:%s:%s:%s" % (module, name, g.violated), what[module], p)
+        if kind == "prof":
+            # TLC workers append in no fixed order: sort, so that a seed selects the same programs in every run
+            progs[name] = sorted(vt.read_ndjson(out), key=lambda c: json.dumps(c, sort_keys=True))
+            if len(progs[name]) < 50:
+                raise Infra("CFlow profile %s wrote only %d programs" % (name, len(progs[name])))
+        if kind == "scope":
+            scope[name] = vt.read_ndjson(out)
+    ctx.phase("TLC models and controls")
+    return progs, scope
 
 
 def run(ctx):
     q = ctx.quick
     tree = ctx.build()
     ctx.phase("build")
-    progs = run_flow(ctx, tree)
-    run_controls(ctx)
+    progs, scope = run_models(ctx)
     allp = []
     for name in PROFILES:
         for c in progs[name]:
@@ -597,25 +685,30 @@ def run(ctx):
             nontrivial=lambda c: len(c["p"]) >= 3)
     asm_skeleton(ctx, tree, list(enumerate(vt.subsample(sel, ctx.seed, max(1, len(sel) // 150)))), render_flow, main_flow, PRELUDE, "flow")
     ctx.phase("flow replay")
-    # switch: width arithmetic (scaled model), then the real widths by replay
-    ctx.tlc_expect_ok("flow", "SwitchCmp", "SwitchCmp.cfg", "the case compare (Level I) differs from 6.8.4.2 (Level A)", workers=2, heap="1g")
-    if ctx.tlc("flow", "SwitchCmp", ctx.cfg("flow", "SwitchCmp.cfg", FIXED=False), workers=1, heap="1g", count=False).ok:
-        raise Infra("sensitivity control failed: TLC accepts case labels stored in int")
-    typed = typed_switch_cases([c for c in progs["switch"] if len(c["p"]) <= (5 if q else 6)])
-    tsel = vt.subsample(typed, ctx.seed, 24 if q else 1)
-    ctx.sample(dict(kind="switch", c_source=render_flow(0, tsel[len(tsel) // 3]), expected=expect_flow(0, tsel[len(tsel) // 3])))
+    # switch at the real widths: 7 controlling types x 16 embeddings, and narrow types with labels outside their range
+    typed, narrow = typed_switch_cases([c for c in progs["switch"] if len(c["p"]) <= (5 if q else 6)])
+    tsel = vt.subsample(typed, ctx.seed, 24 if q else 1) + vt.subsample(narrow, ctx.seed, 6 if q else 1)
+    ctx.sample(dict(kind="switch", c_source=render_flow(0, tsel[-1]), expected=expect_flow(0, tsel[-1])))
     compare(ctx, tree, tsel, render_flow, expect_flow, main_flow, "switch", flow_sig, first=1000000)
     ctx.phase("typed switch replay")
-    nh, nhs = run_scope(ctx, tree)
+    # truth values of int / long / pointer / float / double / long double operands and conditions
+    truth = truth_typed_cases([c for name in ("expr", "all") for c in progs[name] if len(c["p"]) <= (5 if q else 6)])
+    usel = vt.subsample(truth, ctx.seed, 16 if q else 2)
+    ctx.sample(dict(kind="truth", c_source=render_flow(0, usel[len(usel) // 2]), expected=expect_flow(0, usel[len(usel) // 2])))
+    compare(ctx, tree, usel, render_flow, expect_flow, main_flow, "truth", flow_sig, first=2000000)
+    ctx.phase("typed truth replay")
+    nh, nhs = replay_scope(ctx, tree, scope[3], scope.get(4))
     ctx.assumptions += [
-        "Level A (CFlow.tla, Scope.tla) was validated against gcc 12 on every generated program / history of the thorough domain at development time; at check time gcc only discards vectors on which it disagrees with the spec",
-        "marks are calls of an external-linkage-free function M(id) that appends to a buffer; the observable is the printed buffer",
+        "Level A (CFlow.tla, Scope.tla) was validated against gcc 12 on every generated program / history of the quick domain (and the typed families) at development time; at check time gcc only discards vectors on which it disagrees with the spec",
+        "marks are calls of M(id), which appends to a buffer; the observable is the printed buffer",
         "not generated (outside GNU C or rejected by gcc): labels and case labels inside statement expressions that are jumped to from outside; loops whose Level A run exceeds the fuel bound; ranges that are empty before conversion to an unsigned controlling type",
         "scope histories use one identifier per history (renamed per case so that hundreds of histories share a translation unit)"]
     return ctx.finish(
-        rule="case = one complete program of CFlow.tla (per profile, and per controlling type x value embedding for the switch profile) or one history of Scope.tla, compiled by the tree's chibicc; the printed mark trace / bound declarations are compared with Level A; non-trivial = at least 3 statement nodes / 2 declarations; distinct = distinct program, embedding or history",
+        rule="case = one complete program of CFlow.tla (per profile; per controlling type x value embedding for the switch profile; per operand-type assignment for the truth family) or one history of Scope.tla, compiled by the tree's chibicc; the printed mark trace / bound declarations are compared with Level A; non-trivial = at least 3 statement nodes / 2 declarations; distinct = distinct program, embedding, typing or history",
         exhaustive=not q, extra=dict(flow_programs=len(allp), flow_replayed=len(sel), typed_switch_programs=len(typed),
-                                     typed_switch_replayed=len(tsel), scope_histories=nh, scope_replayed=nhs))
+                                     narrow_switch_programs=len(narrow), typed_switch_replayed=len(tsel),
+                                     truth_typed_programs=len(truth), truth_typed_replayed=len(usel),
+                                     scope_histories=nh, scope_replayed=nhs))
 
 
 def replay(ctx, path):
@@ -624,7 +717,7 @@ def replay(ctx, path):
     tree = ctx.build()
     if c.get("kind") == "scope":
         compare(ctx, tree, [c["case"]], render_scope, expect_scope, main_scope, "scope", scope_sig, first=c.get("index", 0), prelude=SPRELUDE)
-    elif c.get("kind") in ("flow", "switch"):
+    elif c.get("kind") in ("flow", "switch", "truth"):
         compare(ctx, tree, [c["case"]], render_flow, expect_flow, main_flow, c["kind"], flow_sig, first=c.get("index", 0))
     elif c.get("kind") == "tlc":
         print("re-run: ./check C03 (profile %s)" % c.get("profile"))
